@@ -390,7 +390,13 @@ def check_cli(res, case):
            "log": cfg.get("capture_log") is not False}
     if case.get("no_before_all") and not prog.get("hook_faults"):
         prog["no_before_all"] = True
-    out = disk.run_cli(prog, extra_args=["-f", "plain", "--no-timings"])
+    extra_args = ["-f", "plain", "--no-timings"]
+    if case.get("clear_handlers"):
+        # --logging-clear-handlers concerns the handlers that are in the way of the log CAPTURE; with the capture off
+        # the records still pass through to the handler that the logging setup installed
+        extra_args.append("--logging-clear-handlers")
+        res.label("cli:logging-clear-handlers" + (":log-capture-off" if not cap["log"] else ""))
+    out = disk.run_cli(prog, extra_args=extra_args)
     if out.returncode not in (0, 1):
         res.fail("C18.cli.exit", "exit code %r: %s" % (out.returncode, out.stderr[-300:]))
         return res
@@ -457,6 +463,7 @@ def enumeration():
 @st.composite
 def random_case(draw):
     prog = draw(gen.program_st(max_features=1, max_items=4, min_items=1, faults=False,
+                               big_dims=[d for d in gen.BIG_DIMS if d != "features"],      # one feature file per case
                                outcomes=["pass", "pass", "fail", "raise", "interrupt", "undefined", "pending", "convert"],
                                cfg=st.just({})))
     bits = draw(st.integers(0, 7))
@@ -485,8 +492,8 @@ def random_case(draw):
         if plain:
             case["relevel"] = [draw(st.integers(0, len(plain) - 1)), "DEBUG"]
     # the documented switch Scenario.continue_after_failed_step: later failing steps report all output so far
-    outs = set(s["o"] for it in prog["features"][0]["items"] for sub in (it["items"] if it["k"] == "r" else [it])
-               for s in sub["steps"])
+    from ..harness import _all_step_lists
+    outs = set(s["o"] for lst in _all_step_lists(prog["features"][0]) for s in lst)     # backgrounds included
     if outs <= set(["pass", "fail", "raise", "convert"]) and draw(st.integers(0, 2)) == 0:
         prog["cfg"]["continue_after_failed"] = True
     # step-hook faults
@@ -507,17 +514,22 @@ def explore(rec):
     quick = rec.tier == "quick"
     rec.enum("sequences<=3 x 8 capture combinations", enumeration())
     rec.hyp("random-programs", random_case(), 10000 if quick else 200000)
-    def cli_case(c, nb):
+    def cli_case(c, nb, ch):
         c = dict(c, kind="cli", no_before_all=nb)
+        if ch:
+            c["clear_handlers"] = True
+            if nb:
+                c["program"]["cfg"]["capture_log"] = False
         if nb and c["program"]["cfg"].get("capture_log") is False:
             c["levels"] = ["INFO", "WARNING", "ERROR"]
         return c
-    rec.hyp("cli", st.builds(cli_case, random_case(), st.booleans()), 64 if quick else 600)
+    rec.hyp("cli", st.builds(cli_case, random_case(), st.booleans(), st.sampled_from([False, False, True])),
+            96 if quick else 800)
 
 
 def required_labels(tier):
     return ["stored:complete"] + ["capture:%d%d%d" % (a, b, c) for a in (0, 1) for b in (0, 1) for c in (0, 1)] + \
-           ["hook-emit", "failing-not-first", "step-hook-fault", "logging-level/filter", "setup_logging-in-before_all", "@capture-decorated-hooks", "log-flood>=999", "interrupt", "nested-steps", "cli", "cli:default-before_all",
+           ["hook-emit", "failing-not-first", "step-hook-fault", "logging-level/filter", "setup_logging-in-before_all", "@capture-decorated-hooks", "log-flood>=999", "interrupt", "nested-steps", "cli", "cli:default-before_all", "cli:logging-clear-handlers:log-capture-off",
             "step-changes-root-logger-level", "continue-after-failed-step:second-failure"]
 
 
